@@ -37,22 +37,25 @@ func (p *c20Pub) Close() error { p.closed++; return nil }
 // precedence (metadata already present > delay in the message context > default generator), forwards
 // the batch in one call, and publishes nothing when a message has no delay unless AllowNoDelay.
 func HarnessC20Delay() {
-	n := vrt.Int("batch", 1, 2)
+	n := vrt.Int("batch", 1, vrt.Bound("maxbatch", 2))
 	genKind := vrt.Int("gen", 0, 2) // 0 absent, 1 present, 2 failing
 	allow := vrt.Bool("AllowNoDelay")
 	inner := &c20Pub{fail: vrt.Bool("inner.fails")}
-	// the default generator's answer depends on the message: 3s for u0, 5s for the others; when it is
+	// the default generator's answer depends on the message: 3s for u0, 5s for u1, 7s for the others; when it is
 	// a failing generator it fails for the message with index genFailAt only
-	genDelays := []Delay{For(3 * time.Second), For(5 * time.Second)}
-	genFailAt := vrt.Int("gen.fail.at", 0, 1)
+	genDelays := []Delay{For(3 * time.Second), For(5 * time.Second), For(7 * time.Second)}
+	genFailAt := vrt.Int("gen.fail.at", 0, vrt.Bound("maxbatch", 2)-1)
 	genCalls := 0
 	cfg := PublisherConfig{AllowNoDelay: allow}
 	if genKind > 0 {
 		cfg.DefaultDelayGenerator = func(p DefaultDelayGeneratorParams) (Delay, error) {
 			genCalls++
-			idx := 1
-			if p.Message.UUID == "u0" {
+			idx := 2
+			switch p.Message.UUID {
+			case "u0":
 				idx = 0
+			case "u1":
+				idx = 1
 			}
 			if genKind == 2 && idx == genFailAt {
 				return Delay{}, errScripted
